@@ -42,7 +42,7 @@ TFin   == IsEv("api.return") /\ LET w == W(Rec[l].actor) IN
             \/ (Rec[l].ok /\ (Fin(w) \/ LineageFin(w)))
             \/ (~Rec[l].ok /\ pc[w] = "idle" /\ UNCHANGED vars)
 \* points that are finer than the model's actions: consumed, no state change
-Silent == {"op.start", "log.enter", "log.body", "cache.enter", "cache.full.flushed", "cache.seek", "cache.msgidx",
+Silent == {"op.start", "log.enter", "log.body", "cache.enter", "cache.full.body", "cache.mr.body", "cache.comp.body", "cache.full.flushed", "cache.seek", "cache.msgidx",
            "cache.mr.flushed", "cache.mr.seek", "cache.mr.msgidx", "cache.mr.ord", "cache.comp.flushed",
            "cache.comp.idx", "index.tmp", "index.renamed", "rebuild.enter",
            "rebuild.truncated", "rebuild.exit"}
